@@ -556,7 +556,7 @@ pub fn acct_pretty(raw: &Value) -> Value {
     v
 }
 
-pub const REAL_STUB: &str = "REAL: all of ska (cli, main, every module), rayon iterators/splitters, ndarray+hashbrown+indicatif rayon glue, dashmap, needletail, snap, ciborium, noodles-vcf, clap; Linux tmpfs and RLIMIT_FSIZE. STUB: rayon-core (simulated work-stealing core on shuttle), OS entropy (getrandom), ahash random source; SKASIM_CORES stands for the machine's core count.";
+pub const REAL_STUB: &str = "REAL: all of ska (cli, main, every module), rayon iterators/splitters (rayon 1.12.0 plus one switch point in par_bridge), ndarray+hashbrown+indicatif rayon glue, dashmap (6.2.1 plus a callback before each operation), needletail, snap, ciborium, noodles-vcf, clap; Linux tmpfs and RLIMIT_FSIZE. STUB: rayon-core (simulated work-stealing core on shuttle), OS entropy (getrandom), ahash random source; SKASIM_CORES stands for the machine's core count.";
 
 /// Run a property check end to end: batch, triage against known findings, minimise, replay
 /// file, evidence, exit code.
